@@ -2,7 +2,7 @@
    This file only restates the property theorems; proofs are in srv/SrvC09.v. *)
 From Coq Require Import List NArith ZArith Bool Arith.
 From RecordUpdate Require Import RecordUpdate.
-From JV Require Import Bytes Msg SrvModel SrvLemmas SrvC09.
+From JV Require Import Bytes Msg SrvModel SrvLemmas SrvC09 SrvC10.
 Import ListNotations.
 
 (* 1. the push gate: without AllowPush nothing is transmitted and nothing changes; after the
@@ -134,3 +134,11 @@ Theorem c09_stopped_callbacks_cancelled : forall c s k i,
   exists cb0, nth_error (cbs s) i = Some cb0 /\ cb_cancelled cb0 = true /\ cb_watch cb0 = WParked.
 Proof. exact stopped_callbacks_cancelled. Qed.
 Print Assumptions c09_stopped_callbacks_cancelled.
+
+(* 1 again, over whole runs: without AllowPush no request is ever transmitted
+   (proved in srv/SrvC10.v from the classification of channel operations) *)
+Theorem c09_gate_no_request_ever : forall c tr s oss,
+  cf_push c = false -> run (init_of c) tr = Some (s, oss) ->
+  forall ok id m p, ~ In (OSendReq ok id m p) (concat oss).
+Proof. exact no_push_no_request. Qed.
+Print Assumptions c09_gate_no_request_ever.
